@@ -14,6 +14,7 @@ CLAIMED["C11"] = (
     "sampled on 64-bit IDs.",
     TB, "5.11")
 HOOK_COMMITS.append("9a14efa")
+HOOK_COMMITS.append("b7ecbbf")
 CLAIMED["C10"] = (
     "model_checking", "TLA+ handshake/salt-cache model (TLC, all interleavings and clock ticks), schedule replay on real threads, trace validation",
     "TLC checks the code-shaped salt-cache/handshake design (check, open, type, timestamp, atomic insert; lock and cache expiry explicit) "
